@@ -781,6 +781,11 @@ def gen_tree(rng, symbols, depth=0, maxdepth=4):
     if k < 0.42:
         return ("neg", gen_tree(rng, symbols, depth + 1, maxdepth))
     if k < 0.5:
+        if rng.random() < 0.4:
+            # addresses at the edges of memory: negative (wrap to the top), the last cell, around the data start
+            return ("mem", rng.choice([("neg", ("int", 1)), ("neg", ("int", 2)), ("neg", ("int", 17)), ("neg", ("int", 32768)),
+                                       ("int", 65535), ("bin", "-", ("int", 0), ("int", 1)), ("int", 0xC001), ("int", 0xC000),
+                                       ("bin", "-", ("reg", 0), ("int", 3))]))
         return ("mem", gen_tree(rng, symbols, depth + 1, maxdepth))
     if rng.random() < 0.2:
         # operands chosen at the edges of -32768..65535
